@@ -93,6 +93,18 @@ def check_tree(case):
                 detail = ":non-dividing"
         for f in sf:
             r.fail("%s:%s%s" % (f, small["op"], detail), "smallest failing subtree: %s" % LO.sig(small)[:1200])
+    elif LO.count_nodes(sp) > 1:
+        # .N of every inner node too: a combinator's or leaf's own normal shortcut is only reached when that node's
+        # .N is taken directly (the root's generic A.H * A never calls it)
+        seen = set()
+        for sub in LO.subtrees(sp)[1:]:
+            k = LO.sig(sub)
+            if k in seen:
+                continue
+            seen.add(k)
+            sf, _ = node_failures(sub, dt, order)
+            for f in [f for f in sf if f not in ("unbuildable", "forward-or-adjoint-unavailable")]:
+                r.fail("%s:%s(inner)" % (f, sub["op"]), "inner node: %s" % LO.sig(sub)[:1200])
     if ref is not None:
         n = ref.shape[0]
         r.nontrivial = not np.allclose(ref, np.eye(n), atol=1e-6)
